@@ -36,4 +36,7 @@ def holderAllocSites : Nat := 3
     `Lock` whatever a context carries (the oracle runs `runK` with these; tied to the source by
     `captured_ctx_takes_lock`, which needs only that no context can make a lock site skip the lock) -/
 def ctxFacts : EinoV.C11.CtxFacts := { handsPlainCtx := true, lockUnconditional := true }
+/-- the mark "skip the state pre-handler" belongs to the one task `restoreTasks` rebuilt from the
+    checkpoint; tasks the resumed run creates later for the same node do not have it -/
+def skipPrePerTask : Bool := true
 end EinoV.Expected.C11
